@@ -156,6 +156,27 @@ pub fn pair_spec(max_len: u32) -> BoxedStrategy<PairSpec> {
         .boxed()
 }
 
+fn clip(b: Blob, max: usize) -> Blob {
+    match b {
+        Blob::Lit(mut h) => {
+            h.0.truncate(max);
+            Blob::Lit(h)
+        },
+        Blob::Gen { len, seed } => Blob::Gen { len: len.min(max as u32), seed },
+    }
+}
+
+/// A pair whose name and value together occupy at most `max_total` bytes (by construction).
+pub fn bounded_pair(max_total: u32) -> BoxedStrategy<PairSpec> {
+    pair_spec(max_total)
+        .prop_map(move |p| {
+            let name = clip(p.name, (max_total as usize).div_ceil(2));
+            let value = clip(p.value, max_total as usize - name.len());
+            PairSpec { name, value, long_n: p.long_n, long_v: p.long_v }
+        })
+        .boxed()
+}
+
 /// Pair list with duplicates and case variants of earlier names mixed in.
 pub fn pair_list(max_pairs: usize, max_len: u32) -> BoxedStrategy<Vec<PairSpec>> {
     (proptest::collection::vec(pair_spec(max_len), 0..=max_pairs), proptest::collection::vec((any::<u16>(), any::<u16>(), any::<u32>(), gen::small_blob(40)), 0..4))
@@ -336,6 +357,23 @@ pub fn gv_item(max_pair: u32) -> BoxedStrategy<GvItem> {
         1 => prop_oneof![Just(vec![0xffu8, 0xfe]), Just(vec![b'F', b'C', 0xc3]), Just(b"FCGI_MAX_CONN".to_vec()), Just(b"fcgi_max_conns".to_vec()), Just(b"FCGI_MAX_CONNSS".to_vec())]
             .prop_map(|n| GvItem::Other(Blob::lit(&n), Blob::lit(b""))),
     ]
+    .prop_map(move |it| {
+        // keep name+value within the documented bound by construction
+        let over = match &it {
+            GvItem::Known(_) => false,
+            GvItem::KnownWithValue(k, v) => KNOWN[*k as usize % 3].len() + v.len() > max_pair as usize,
+            GvItem::Other(n, v) => n.len() + v.len() > max_pair as usize,
+        };
+        match (over, it) {
+            (false, it) => it,
+            (true, GvItem::KnownWithValue(k, _)) => GvItem::Known(k),
+            (true, GvItem::Other(n, _)) => {
+                let n = clip(n, max_pair as usize);
+                GvItem::Other(n, Blob::lit(b""))
+            },
+            (true, it) => it,
+        }
+    })
     .boxed()
 }
 
